@@ -748,6 +748,7 @@ type stats struct {
 	byCoinc     map[string]int
 	byConfig    map[string]int
 	executions  int
+	rejectedWhy map[string]int
 }
 
 // process compiles every unit under its configurations, executes inputs and
@@ -861,6 +862,11 @@ func compare(r *core.Run, u *unit, results map[string]*jobResult, st *stats) {
 			// esbuild refused the input (e.g. a sloppy-only construct under an ESM output): no output, no verdict
 			st.mu.Lock()
 			st.rejected++
+			reason := o.Err
+			if len(reason) > 90 {
+				reason = reason[:90]
+			}
+			st.rejectedWhy[reason]++
 			st.mu.Unlock()
 			continue
 		}
@@ -1024,7 +1030,7 @@ func replay(r *core.Run) {
 	}
 	u := &unit{idx: 0, raw: rec.Detail.Case, c: &c, hash: core.Hash(json.RawMessage(rec.Detail.Case))}
 	u.configs = allConfigs(&c, render(&c, false))
-	st := &stats{byCoinc: map[string]int{}, byConfig: map[string]int{}}
+	st := &stats{byCoinc: map[string]int{}, byConfig: map[string]int{}, rejectedWhy: map[string]int{}}
 	process(r, []*unit{u}, st)
 	for k, cf := range u.configs {
 		if u.outs[k].Err == "" {
@@ -1078,7 +1084,7 @@ func Run(r *core.Run) {
 	// (2) trees generated by TLC (seeded random walks, in rounds until the time
 	// budget of the tier is used: the machine is shared and TLC's speed varies),
 	// replayed through the real esbuild
-	st := &stats{byCoinc: map[string]int{}, byConfig: map[string]int{}}
+	st := &stats{byCoinc: map[string]int{}, byConfig: map[string]int{}, rejectedWhy: map[string]int{}}
 	seen := map[string]bool{}
 	total := 0
 	walks := r.Pick(400, 2500)
@@ -1137,6 +1143,7 @@ func Run(r *core.Run) {
 	r.Set("trees", st.cases)
 	r.Set("configurations_run", st.configsRun)
 	r.Set("configurations_rejected_by_esbuild", st.rejected)
+	r.Set("configurations_rejected_reasons", st.rejectedWhy)
 	r.Set("node_executions", st.executions)
 	r.Set("by_coincidence", st.byCoinc)
 	r.Set("by_configuration", st.byConfig)
